@@ -35,6 +35,7 @@ import glob
 import hashlib
 from fractions import Fraction
 
+import subprocess
 from vlib import *
 import calcgen as cg
 
@@ -324,7 +325,7 @@ def enumerate_edits(env, rng):
                 note = None
                 if k == "$regime" and len(path) == 1 and isinstance(x, str) and x == supplier_cc:
                     note = "derived-regime"
-                yield ("member-remove", "del", path + [k], None, note or spelling_note(x, "del", None))
+                yield ("member-remove", "del", path + [k], None, note or ("null-member" if x is None else spelling_note(x, "del", None)))
                 sub = props.get(k)
                 if sub is None and patt:
                     sub = next(iter(patt.values()))
@@ -473,6 +474,9 @@ def judge_edit(o, orig, kind, note):
         return "no-effect:derived-regime", None
     if note == "unknown":
         return "no-effect:unknown-member", None
+    if note == "null-member":
+        # a member whose value is null and the member's absence are the same content (canonical JSON drops null members)
+        return "no-effect:null-member-removed", None
     if note in SPELLINGS:
         # not a change of content but another spelling of the same amount: num.Amount reads bare JSON numbers, and null
         # leaves the zero amount; only reached when the parsed document is byte-identical
@@ -598,6 +602,27 @@ def run(c):
         if v and v[0] == b"ok":
             sources.append(("generated:%d" % i, v[1].decode()))
             ngen_ok += 1
+    # rich synthetic documents (every member of every registered type populated, repaired into valid ones): envelopes of them
+    import richvalid, glob as _gl
+    richdir = os.path.join(WORK, "c14rich")
+    subprocess.run([os.path.join(BIN, "vharness"), "c14rich", richdir], stdout=subprocess.PIPE, stderr=subprocess.PIPE, env=GOENV)
+    rdocs = []
+    for f in sorted(_gl.glob(os.path.join(richdir, "rich-*.json"))):
+        if "+" in os.path.basename(f):
+            continue
+        try:
+            rdocs.append((os.path.basename(f), richvalid.make_valid(json.load(open(f)))))
+        except ValueError:
+            pass
+    nrich = 0
+    if quick:
+        rdocs = [x for x in rdocs if any(k in x[0] for k in ("bill-invoice", "bill-payment", "bill-order", "bill-delivery.", "org-party", "pay-", "note-"))]
+    for (rn, d), o in zip(rdocs, run_go(["c08 envelop " + w(json.dumps(d)) for _, d in rdocs], shards=16)):
+        v = parse_wire(o)
+        if v and v[0] == b"ok":
+            sources.append(("rich:" + rn, v[1].decode()))      # (kept only if it validates, like every generated one)
+            nrich += 1
+    c.cov["rich_envelopes"] = nrich
     c.cov["generated_envelopes"] = ngen_ok
     if ngen_ok < ngen // 2:
         c.report("generator broken: only %d of %d generated invoices could be enveloped" % (ngen_ok, ngen), {"machinery": "generator"}, no_input=True)
@@ -611,6 +636,8 @@ def run(c):
     for (name, text), ol in zip(sources, origs):
         o = Obs(parse_wire(ol)[0])
         env = json.loads(text)
+        if name.startswith("rich:") and o.parse == "ok" and o.validate == "validation":
+            continue          # a rich document the name rules did not manage to make valid
         if name.startswith("generated:") and o.parse == "ok" and o.validate == "validation":
             dropped += 1      # the generator aims at calculation, not validity: the property's domain is valid documents
             continue
@@ -676,6 +703,12 @@ def run(c):
         for e in enumerate_edits(env, rng):
             all_edits.append((si,) + e)
     c.cov["edits_enumerated"] = len(all_edits)
+    if quick:
+        # the rich documents are large: a seeded sample of their edits in the quick tier
+        rich_e = [e for e in all_edits if good[e[0]][0].startswith("rich:")]
+        rng.shuffle(rich_e)
+        keep_r = set(id(e) for e in rich_e[:3000])
+        all_edits = [e for e in all_edits if not good[e[0]][0].startswith("rich:") or id(e) in keep_r]
     budget = 25000 if quick else len(all_edits)
     if len(all_edits) > budget:
         # stratified by kind: rare kinds are kept completely
@@ -705,6 +738,10 @@ def run(c):
                 continue
             gp = tuple("*" if isinstance(x, int) else x for x in path)
             if gp in seen_gp and quick:
+                continue
+            if quick and (len(seen_gp) >= 70 or name.startswith("rich:")):
+                continue                    # bounded in the quick tier: the example positions first
+            if len(seen_gp) >= 400:
                 continue
             seen_gp.add(gp)
             for lit in pool:
